@@ -583,7 +583,14 @@ def main():
     cfgs = args.configs.split(',') if args.configs else (ALL_CONFIGS if (tier == 'thorough' or prop in ('C14', 'C15')) else QUICK_CONFIGS)
     bins, errs = build_harness(cfgs)
     if errs:
-        print('harness build failed (the tree does not compile?):', json.dumps(errs)[:2000]); return 2
+        # the correspondence harness no longer compiles against the crate (a changed public signature, or the tree itself does
+        # not compile): the correspondence cannot be run, so the property is no longer shown to hold for this tree
+        print('harness build failed (the tree does not compile, or its public API changed):', json.dumps(errs)[:2000])
+        p_ = os.path.join(replay_dir, '%s-%s-unproved.json' % (prop, tier))
+        json.dump({'property': prop, 'kind': 'no-failing-input-found', 'no_longer_checks': [{'correspondence': 'the harness (/verif/harness) does not compile against the current tree', 'errors': errs}],
+                   'lean_ok': lean['ok'], 'lean_errors': lean.get('errors', [])[:10],
+                   'explanation': 'the model/implementation correspondence cannot be run against this tree; no input violating the property could be searched for'}, open(p_, 'w'), indent=1)
+        print('VIOLATION property=%s replay=%s no-failing-input-found' % (prop, p_)); return 1
 
     # 5: correspondence
     rng = random.Random('%s/%d/%s' % (prop, seed, tier))
